@@ -7,6 +7,8 @@
 #include "driver.h"
 
 int harness_flavour = 0;
+/* progress heartbeat of long loops inside an adapter: the watchdog then bounds every single library call, not the loop */
+void driver_kick(void) { alarm(20); }
 volatile int asan_reports = 0;
 static long lineno = 0;
 static char tag[256] = "-";
@@ -187,7 +189,7 @@ int main(int argc, char **argv)
 
         int before = asan_reports;
         /* watchdog: 20 s per call; value sweeps executed inside an adapter get half an hour */
-        alarm((strncmp(ev.name, "sweep", 5) == 0 || strncmp(ev.name, "rnd", 3) == 0) ? 1800 : 20);
+        alarm(20);          /* value sweeps inside an adapter re-arm it as they make progress (driver_kick) */
         in_exec = 1;
         adapter_exec(&ev);
         in_exec = 0;
